@@ -15,6 +15,16 @@ pub fn compress(src: &[u8]) -> Result<Vec<u8>> {
 
 fn uncompress_to(src: &[u8], dst: &mut Vec<u8>) -> Result<()> {
     let min_len = snap::raw::decompress_len(src)?;
+    // ~ no snappy element expands to more than 64 bytes per 3 bytes
+    // of input; reject an announced length the input cannot possibly
+    // produce before allocating room for it
+    let max_len = src.len().saturating_mul(32);
+    if min_len > max_len {
+        return Err(Error::InvalidSnappy(snap::Error::HeaderMismatch {
+            expected_len: min_len as u64,
+            got_len: max_len as u64,
+        }));
+    }
     if min_len > 0 {
         let off = dst.len();
         dst.resize(off + min_len, 0);
